@@ -48,7 +48,8 @@ def stepP (σ : Ctr × Option Name) (ev : CEv) : Option (Ctr × Option Name) :=
     if aget c.seq n = some k then some ({ c with seq := aset c.seq n (k + d) }, if d = 0 then none else some n) else none
   | .reset, none => some ({ c with copy := aupdate c.copy c.seq, cleared := false }, none)
   | .rewind descs, none =>
-    if c.cleared then none
+    -- only with a checkpoint copy that has not been cleared, and without losing any counter
+    if c.cleared || !(c.seq.all fun kv => ahas c.copy kv.1 || descs.contains kv.1) then none
     else some ({ c with seq := descs.foldl readdL c.copy, copy := descs.foldl readdL c.copy }, none)
   | .clear, none => some ({ c with copy := [], cleared := true }, none)
 
@@ -294,7 +295,9 @@ theorem stepP_wf (σ σ' : Ctr × Option Name) (ev : CEv) (h : stepP σ ev = som
       simp only [stepP] at h
       split at h
       · cases h
-      · rename_i hc
+      · rename_i hc0
+        have hc : ¬ c.cleared = true := by
+          intro hcl; apply hc0; simp [hcl]
         cases h
         have hpos : ∀ m u, aget (descs.foldl readdL c.copy) m = some u → 1 ≤ u := by
           intro m u hu
